@@ -1,5 +1,5 @@
 (* Proofs about the E1 model BasicSender (Proto/BasicSenderDefs.v) by reflection on the complete
-   set of reachable states (Proto/C19Reach.v) for each of the 10 parameter values: closure under
+   set of reachable states (Proto/C19Reach.v) for each of the 60 parameter values: closure under
    the five threads' steps and the properties of every element are re-checked by the kernel and
    lifted to every state of every run of an arbitrary schedule by [check_with_sound]. *)
 From Coq Require Import List Bool Arith Lia PArith NArith FMapPositive.
@@ -12,14 +12,17 @@ Definition phase_eq_dec : forall a b : phase, {a = b} + {a <> b}. Proof. decide 
 Definition cbst_eq_dec : forall a b : cbst, {a = b} + {a <> b}. Proof. decide equality. Defined.
 Definition slotst_eq_dec : forall a b : slotst, {a = b} + {a <> b}. Proof. decide equality. Defined.
 Definition tail_eq_dec : forall a b : tail, {a = b} + {a <> b}. Proof. decide equality. Defined.
-Definition pc0_eq_dec : forall a b : pc0, {a = b} + {a <> b}. Proof. decide equality; apply tail_eq_dec. Defined.
+Definition r0site_eq_dec : forall a b : r0site, {a = b} + {a <> b}. Proof. decide equality. Defined.
+Definition pcn_eq_dec : forall a b : pcn, {a = b} + {a <> b}. Proof. decide equality. Defined.
+Definition pc0_eq_dec : forall a b : pc0, {a = b} + {a <> b}. Proof. decide equality; try apply tail_eq_dec; apply r0site_eq_dec. Defined.
 Definition pcc_eq_dec : forall a b : pcc, {a = b} + {a <> b}. Proof. decide equality; apply tail_eq_dec. Defined.
 Definition pc3_eq_dec : forall a b : pc3, {a = b} + {a <> b}. Proof. decide equality; apply tail_eq_dec. Defined.
 Definition st_eq_dec : forall a b : st, {a = b} + {a <> b}.
 Proof.
   decide equality; try apply Bool.bool_dec; try apply Nat.eq_dec; try apply phase_eq_dec;
     try apply cbst_eq_dec; try apply slotst_eq_dec; try apply pc0_eq_dec; try apply pcc_eq_dec;
-    try apply pc3_eq_dec.
+    try apply pc3_eq_dec; try apply pcn_eq_dec.
+  - apply (list_eq_dec outcome_eq_dec).
   - apply (list_eq_dec outcome_eq_dec).
   - decide equality; apply outcome_eq_dec.
   - decide equality; apply Nat.eq_dec.
@@ -27,9 +30,10 @@ Defined.
 Local Open Scope N_scope.
 Definition nb (b : bool) : N := if b then 1 else 0.
 Definition c_tail (t : tail) : N := match t with TDereg => 0 | TDeregWait => 1 | TRoot => 2 end.
-Definition c_pc0 (x : pc0) : N := match x with B0Reg => 0 | B0IAcq => 1 | B0IRel => 2 | B0Acq => 3 | B0Body => 4 | B0Arm => 5 | B0NAcq => 6 | B0NBody => 7 | B0NRel => 8 | B0Rel => 9 | B0Fin => 10 | B0Tail t => 11 + c_tail t end.
-Definition c_pcc (x : pcc) : N := match x with CCall => 0 | CAcq => 1 | CBody => 2 | CRelNo => 3 | CRel => 4 | CRet => 5 | CFin => 6 | CTail t => 7 + c_tail t end.
-Definition c_pc3 (x : pc3) : N := match x with S3Set => 0 | S3Acq => 1 | S3Body => 2 | S3Slot => 3 | S3RelNo => 4 | S3Rel => 5 | S3CbRet => 6 | S3Fin => 7 | S3Tail t => 8 + c_tail t end.
+Definition c_pc0 (x : pc0) : N := match x with B0Reg => 0 | B0IAcq => 1 | B0IRel => 2 | B0Acq => 3 | B0Body => 4 | B0Arm => 5 | B0NAcq => 6 | B0NBody => 7 | B0NRel => 8 | B0Rel => 9 | B0Fin => 10 | B0Tail t => 11 + c_tail t | B0Rq R0Start => 14 | B0Rq R0Inl => 15 end.
+Definition c_pcc (x : pcc) : N := match x with CCall => 0 | CAcq => 1 | CBody => 2 | CRelNo => 3 | CRel => 4 | CRet => 5 | CFin => 6 | CTail t => 7 + c_tail t | CRq => 10 end.
+Definition c_pc3 (x : pc3) : N := match x with S3Set => 0 | S3Acq => 1 | S3Body => 2 | S3Slot => 3 | S3RelNo => 4 | S3Rel => 5 | S3CbRet => 6 | S3Fin => 7 | S3Tail t => 8 + c_tail t | S3Re => 11 end.
+Definition c_pcn (x : pcn) : N := match x with NIdle => 0 | NSet => 1 | NAcq => 2 | NBody => 3 | NRe => 4 | NSlot => 5 | NRelNo => 6 | NRel => 7 | NCbRet => 8 end.
 Definition c_cb (x : cbst) : N := match x with CbNone => 0 | CbReg => 1 | CbInline => 2 | CbRun => 3 | CbRunRm => 4 | CbDone => 5 | CbGone => 6 end.
 Definition c_ph (x : phase) : N := match x with PStarting => 0 | PStarted => 1 | PStoppedEarly => 2 | PCompleted => 3 end.
 Definition c_oo (x : option outcome) : N := match x with None => 0 | Some OVal => 1 | Some ODone => 2 end.
@@ -43,20 +47,24 @@ Definition code (s : st) : positive :=
   let a := a * 4 + c_oo (res s) in
   let a := a * 2 + nb (src s) in
   let a := a * 8 + c_cb (cb s) in
+  let a := a * 4 + N.of_nat (notifier s) in
   let a := a * 4 + N.of_nat (slot_val (slot s)) in
   let a := a * 2 + nb (armed s) in
   let a := a * 16 + c_pc0 (p0 s) in
   let a := a * 16 + c_pcc (p1 s) in
   let a := a * 16 + c_pcc (p2 s) in
   let a := a * 16 + c_pc3 (p3 s) in
+  let a := a * 16 + c_pcn (pn s) in
   let a := a * 2 + nb (h1 s) in
   let a := a * 2 + nb (h2 s) in
   let a := a * 2 + nb (destroyed s) in
   let a := a * 2 + nb (freed s) in
   let a := a * 16 + c_outs (completions s) in
+  let a := a * 128 + c_outs (calls s) in
   let a := a * 4 + N.of_nat (nstart s) in
   let a := a * 4 + N.of_nat (ncallback s) in
   let a := a * 4 + N.of_nat (nstop s) in
+  let a := a * 4 + N.of_nat (badstop s) in
   let a := a * 16 + N.of_nat (late s) in
   N.succ_pos a.
 Local Close Scope N_scope.
@@ -96,13 +104,25 @@ Definition P_common (p : params) (s : st) : bool :=
    | [o] => match res s with Some o' => if outcome_eq_dec o o' then true else false | None => false end
    | _ => true end) &&                                           (* the completion is the deferred result *)
   (match res s with Some ODone => src s | _ => true end) &&      (* done only after a stop request *)
-  Nat.leb (md s) 2.
+  Nat.leb (md s) 3 &&
+  Nat.eqb (badstop s) 0 &&                                       (* the stop event only for a started, unfinished operation *)
+  (match first_call s with
+   | Some o => match res s with Some o' => if outcome_eq_dec o o' then true else false | None => false end
+   | None => match res s with
+             | None => true
+             | Some ODone => match ph s with PStoppedEarly => true | _ => false end
+             | Some OVal => false
+             end
+   end).                                                         (* the result is the first signal the body chose *)
 
 Definition P_all (p : params) (s : st) : bool :=
   P_common p s && (if racy p then true else Nat.eqb (late s) 0).
 
 Definition all_params : list params :=
-  flat_map (fun f => [ {| first := f; second := false |}; {| first := f; second := true |} ])
+  flat_map (fun f => flat_map (fun b => flat_map (fun r =>
+     [ {| first := f; second := false; breq := b; restop := r |};
+       {| first := f; second := true; breq := b; restop := r |} ]) [false; true])
+     [BNo; BValStop; BStopVal])
            [FSync; FInl; FSafe; FUnsafe; FNone].
 
 Definition the_reach (p : params) := reach st ev code (step p) 5 4000 (init p).
@@ -113,7 +133,7 @@ Lemma check_all :
 Proof. vm_compute. reflexivity. Qed.
 
 Lemma params_in p : In p all_params.
-Proof. destruct p as [[] []]; cbn; tauto. Qed.
+Proof. destruct p as [[] [] [] []]; cbn; tauto. Qed.
 
 Theorem P_all_reachable p sched : P_all p (fst (run (step p) sched (init p, []))) = true.
 Proof.
@@ -130,9 +150,12 @@ Lemma P_common_spec p s : P_common p s = true ->
   (quiescent p s = true -> final_ok p s = true) /\
   (freed s = true -> cb_torn_down (cb s) = true /\ finished (ph s) = true /\ own s = false) /\
   (forall o, completions s = [o] -> res s = Some o) /\
-  (res s = Some ODone -> src s = true).
+  (res s = Some ODone -> src s = true) /\
+  badstop s = 0 /\
+  (forall o, first_call s = Some o -> res s = Some o).
 Proof.
   unfold P_common. intros H.
+  apply andb_true_iff in H as [H H12]. apply andb_true_iff in H as [H H11].
   apply andb_true_iff in H as [H H10]. apply andb_true_iff in H as [H H9].
   apply andb_true_iff in H as [H H8]. apply andb_true_iff in H as [H H7].
   apply andb_true_iff in H as [H H6]. apply andb_true_iff in H as [H H5].
@@ -151,6 +174,9 @@ Proof.
   - intros o Ho. rewrite Ho in H8. destruct (res s) as [o'|]; [|discriminate H8].
     destruct (outcome_eq_dec o o') as [->|]; [reflexivity|discriminate H8].
   - intros Hr. rewrite Hr in H9. exact H9.
+  - apply Nat.eqb_eq. exact H11.
+  - intros o Ho. rewrite Ho in H12. destruct (res s) as [o'|]; [|discriminate H12].
+    destruct (outcome_eq_dec o o') as [->|]; [reflexivity|discriminate H12].
 Qed.
 
 Lemma final_ok_spec p s : final_ok p s = true ->
@@ -208,10 +234,32 @@ Section Main.
     (forall o, completions s = [o] -> res s = Some o) /\
     (res s = Some ODone -> src s = true).
   Proof.
-    destruct (P_common_spec p s P_common_s) as (_ & _ & _ & _ & H5 & H6 & H7).
+    destruct (P_common_spec p s P_common_s) as (_ & _ & _ & _ & H5 & H6 & H7 & _).
     split; [|split; assumption].
     intros Hf. destruct (H5 Hf) as (A & _ & C).
     repeat split; try exact C; intros Hc; rewrite Hc in A; discriminate A.
+  Qed.
+
+  (* the stop event reaches the body at most once and only while the operation is started and
+     not finished ([badstop] counts the stop events dispatched in any other phase) *)
+  Theorem stop_dispatch : nstop s <= 1 /\ badstop s = 0 /\ (nstop s = 0 \/ nstart s = 1).
+  Proof.
+    destruct (P_common_spec p s P_common_s) as (_ & (_ & _ & C) & D & _ & _ & _ & _ & E & _).
+    repeat split; assumption.
+  Qed.
+
+  (* a completion signal already chosen is never overridden: the deferred result is the FIRST
+     set_value / set_done call of the body ([calls] only grows, newest first), and the one
+     completion the receiver gets is that result *)
+  Theorem first_decision_wins :
+    length (completions s) <= 1 /\
+    (forall o, first_call s = Some o -> res s = Some o) /\
+    (forall o o', first_call s = Some o -> completions s = [o'] -> o' = o).
+  Proof.
+    destruct (P_common_spec p s P_common_s) as (H1 & _ & _ & _ & _ & H6 & _ & _ & H9).
+    split; [exact H1|]. split; [exact H9|].
+    intros o o' Hf Hc. pose proof (H9 o Hf) as A. pose proof (H6 o' Hc) as B.
+    rewrite A in B. injection B as B. symmetry. exact B.
   Qed.
 
   (* quiet_after_completion holds when no safe callback can be in flight while another thread
@@ -228,10 +276,11 @@ End Main.
    locks the operation's mutex after the receiver has been completed                            *)
 
 Definition witness (p : params) : list nat :=
+  let stop := if restop p then [3; 3; 3; 3; 3; 3; 3] else [3; 3; 3; 3; 3; 3] in
   match first p, second p with
-  | FSafe, false => [0; 0; 0; 0; 1; 3; 3; 3; 3; 3; 3; 1]
-  | FSafe, true => [0; 0; 0; 0; 2; 3; 3; 3; 3; 3; 3; 2]
-  | FNone, _ => [0; 0; 0; 0; 2; 3; 3; 3; 3; 3; 3; 2]
+  | FSafe, false => [0; 0; 0; 0; 1] ++ stop ++ [1]
+  | FSafe, true => [0; 0; 0; 0; 2] ++ stop ++ [2]
+  | FNone, _ => [0; 0; 0; 0; 2] ++ stop ++ [2]
   | FSync, _ | FInl, _ | FUnsafe, _ => []
   end.
 
@@ -241,6 +290,6 @@ Theorem quiet_after_completion_refuted : forall p, racy p = true ->
   (* the last two events: the receiver is completed, then the callback locks the mutex *)
   exists o, firstn 2 (rev (snd c)) = [ELock 0 1; ERoot o].
 Proof.
-  intros [[] []] Hr; try discriminate Hr; cbv zeta; vm_compute;
+  intros [[] [] [] []] Hr; try discriminate Hr; cbv zeta; vm_compute;
     (split; [reflexivity|split; [reflexivity|eexists; reflexivity]]).
 Qed.
